@@ -71,6 +71,17 @@ theorem set_iterator (s : HashSet) (it : HIter) (m : Mem) :
     (s.iterNext it m).2.1 = (s.table.iterNext it m).2.1.map (·.key) ∧ (s.iterNext it m).1 = (s.table.iterNext it m).1 :=
   ⟨rfl, rfl⟩
 
+/-- **C07 for the hash set**: driving `cc_hashset_iter_next`/`iter_remove`: the yielded elements are
+the elements of the set in walk order (all of them, each once, when the program is long enough —
+`s.abs` has no duplicates), the set finally holds the elements whose removal was not requested -/
+theorem set_iterator_program (c : HCfg) (s : HashSet) (m : Mem) (bs : List Bool) (h : s.Inv c) (hl : s.size + 3 ≤ m.live) :
+    (HashSet.drive c bs s (s.iterInit m).1 m).1 = (s.abs.take bs.length) ∧
+    (HashSet.drive c bs s (s.iterInit m).1 m).2.1.Inv c ∧
+    (HashSet.drive c bs s (s.iterInit m).1 m).2.1.abs =
+      s.abs.filter (fun k => !(HashTable.removedKeys s.table.buckets.flatten bs).contains k) ∧
+    (s.size ≤ bs.length → (HashSet.drive c bs s (s.iterInit m).1 m).1 = s.abs) :=
+  HashSet.iter_program c s m bs h hl
+
 /-- non-vacuity: a constant-hash table, remove the 1st and 3rd yielded entries -/
 def exTable : HashTable :=
   { capacity := 8, size := 3, threshold := 6,
